@@ -137,7 +137,8 @@ class PGen:
         kind = r.choice(kinds)
         form = r.choice(self.RANGE_FORMS[kind])
         s = {"s": "range", "kind": kind, "form": form, "id": self.fresh(), "uid": self.fresh(),
-             "mutate": (kind in ("ints", "arr") and r.random() < 0.3) or (kind == "n" and r.random() < 0.5), "closure": False}
+             "mutate": (kind in ("ints", "arr") and r.random() < 0.3) or (kind == "n" and r.random() < 0.5), "closure": False,
+             "upd": kind == "map2" and r.random() < 0.5}
         if r.random() < 0.15:
             # a range loop inside a plain closure nested in the generator: trivial body only
             s["closure"] = True
@@ -523,7 +524,12 @@ class Render:
                 "kv=": "for %s, %s = range %s {" % (k, v, src), "k=": "for %s = range %s {" % (k, src)}[form]
         e(ind, head)
         uid = s["uid"]
-        if kind == "map2":
+        if kind == "map2" and s.get("upd") and form == "kv:=":
+            # update the other entry: Go reads the value when the entry is visited, so the second
+            # iteration (whichever it is) sees the update; keys are not logged
+            e(ind + 1, "c%d[3-%s] += 100" % (i, k))
+            e(ind + 1, "tr.U(%d, %s-10*%s)" % (uid, v, k))
+        elif kind == "map2":
             # delete the other entry: exactly one iteration in any order; the key itself is not logged
             e(ind + 1, "delete(c%d, 3-%s)" % (i, k))
             e(ind + 1, "tr.U(%d, len(c%d))" % (uid, i))
